@@ -314,6 +314,20 @@ def fix_nodes(n):
         # `x . a`: a bare identifier after `.` is a Property (a symbol constant), not an identifier look-up
         name = n.kids[1].a
         n.kids[1] = Node('lit', (f'(s {symbol_value(name)})', name))
+    if n.kind in ('slist', 'clist'):
+        # two pairs with the same symbol key in one list: which one a look-up finds is not defined by the language (C16 leaves
+        # duplicate keys out; the two stores use different search structures) — later duplicates get a key of their own
+        seen = set()
+        for c in n.kids:
+            if c.kind == 'pair' and c.kids and c.kids[0].kind == 'lit' and c.kids[0].a[1].startswith(':'):
+                name = c.kids[0].a[1][1:]
+                if name in seen:
+                    k = 2
+                    while f'{name}{k}' in seen:
+                        k += 1
+                    name = f'{name}{k}'
+                    c.kids[0] = lit_sym(name)
+                seen.add(name)
     kids = list(n.kids)
     if n.kind == 'chain':
         arms, final = n.a
